@@ -208,3 +208,15 @@ def forbidden_char(c, allow_placeholders, modern_rules):
 def allowed_tag_char(c, allowed):
     """letters and digits, the listed extra characters, and ':' (clock times)"""
     return c.isalnum() or c in allowed or c == ':'
+
+
+# ----------------------------------------------------------------------------- comma-separated lists (C14)
+def is_field(s, sep, e):
+    """e is one of the fields of s.split(sep) (sep a single character)"""
+    return sep not in e and (s == e or s.startswith(e + sep) or s.endswith(sep + e) or (sep + e + sep) in s)
+
+
+# ----------------------------------------------------------------------------- ownership (C09 copies)
+def fresh(x):
+    """smt-builtin: x was allocated during the call under verification (concretely only 'is an object' can be observed)"""
+    return x is not None
